@@ -624,6 +624,7 @@ pub fn property() -> Property {
     Property {
         id: "C13",
         subs: vec![ex, sub::<FfRandom>(), sub::<Numeric>(), sub::<Poly>()],
+        fuzz: vec![],
         assumptions: vec![
             "exactly representable values only (small integers and dyadics), so f64 results are compared with ==",
             "RationalSemiring values are naturals built from one()/zero() (its field is private)",
